@@ -1035,7 +1035,8 @@ def monitor_checks(c, rs, rj):
                                 kx["symptom"] = "offset-of-grouped-laplacian"
                 add("class-vs-expression", ok, worst, {"time": c[t], "exec_mode": tag, "text": r["texts"]},
                     {"pde_expression": b, "max_abs_diff": worst}, {"class": a},
-                    "PDE(eq.expression) differs from the class rate beyond the printed digits", **kx)
+                    "PDE(eq.expression) differs from the class rate beyond the printed digits"
+                    + (f" [{kx['symptom']}]" if kx.get("symptom") else ""), **kx)
     return out
 
 
